@@ -21,7 +21,25 @@ PROPS = {
     },
 }
 
+PROPS["C08"] = {
+    "level_text": "Theorems (Properties/C08.v): AccountClaims.DidSign is exactly the statement's rule for every claim and key set; OperatorClaims.DidSign is exactly the rule outside one corner (strict usage, issuer = identity key, foreign subject, identity key also listed as signing key), where the full statement is refuted by a witness (known finding K3) and the code's answer (no) is proved; nil claim -> no. Tie: the complete cross product of the quantifier with real keys and claims objects, before and after encode/decode, evaluated by the model in Coq and against the statement's rule.",
+    "level_note": NOTE_COMMON + "Claims are projected to (kind, issuer, subject, issuer account); signing keys to their key list.",
+    "assumptions": ["claims enter DidSign only through kind, issuer, subject and issuer account"],
+}
+
+PROPS["C18"] = {
+    "level_text": "Theorems (Properties/C18.v): for every valid granted subject the cleaned part is the token prefix before the first wildcard ('_' for a leading wildcard, the subject itself without wildcards); the id is H(issuer.subject.cleaned) for every H, so it depends on nothing else; for dot-free issuer and subject the hashed text determines the triple (different triples => different pre-images); refused iff one of the three is empty. Tie: activations of every shape through v1 encode/HashID, v2 migration/HashID and v2 re-encode/HashID, all compared with the model in Coq (hash facts from the harness's own SHA-256/base32) and with each other.",
+    "level_note": NOTE_COMMON + "SHA-256 and base32 are an uninterpreted function H; 'differs' is proved on the hash pre-image (collision resistance assumed). v1 and v2 HashID are the same code and share one model, each compared with it.",
+    "assumptions": ["SHA-256 collision resistance for the 'differs' clause"],
+}
+
 NOT_APPLICABLE = {}
 
 # finding id -> predicate on a violation record (dict with 'what' and 'input')
-KNOWN_MATCHERS = {}
+def _k3(v):
+    i = v.get("input") or {}
+    return (i.get("entity") == "operator" and i.get("strict") is True and i.get("iss_is_id") is True
+            and i.get("sub_is_id") is False and i.get("id_in_keys") is True and i.get("impl") is False and i.get("spec") is True)
+
+
+KNOWN_MATCHERS = {"K3": _k3}
